@@ -469,3 +469,244 @@ func waitAssetIndex(n *Node, b *types.Block) bool {
 	}
 	return has
 }
+
+// ---- signer lists: ground truth, saved-state immutability, abandoned executions (C06) ---------------------------
+
+// signersIn returns the signer lists a ModifySigners tx of the block stores, in execution order (box sub-txs included).
+func signersIn(b *types.Block, f func(target common.Address, ss types.Signers, tx *types.Transaction)) {
+	var walk func(tx *types.Transaction)
+	walk = func(tx *types.Transaction) {
+		if tx.Type() == params.ModifySignersTx && tx.To() != nil {
+			var ms struct {
+				Signers types.Signers `json:"signers"`
+			}
+			if json.Unmarshal(tx.Data(), &ms) == nil {
+				f(*tx.To(), ms.Signers, tx)
+			}
+		}
+		if tx.Type() == params.BoxTx {
+			if box, err := types.GetBox(tx.Data()); err == nil {
+				for _, st := range box.SubTxList {
+					walk(st)
+				}
+			}
+		}
+	}
+	for _, tx := range b.Txs {
+		walk(tx)
+	}
+}
+
+// commitSigners: the block was inserted on the main chain — its signer changes become the registered lists.
+func (l *ledger) commitSigners(b *types.Block) {
+	if l.truth == nil {
+		l.truth = map[common.Address]types.Signers{}
+	}
+	signersIn(b, func(target common.Address, ss types.Signers, _ *types.Transaction) {
+		l.truth[target] = append(types.Signers{}, ss...)
+	})
+}
+
+// savedSigners reads, through a FRESH manager, the signer list every watched account has in the state of block h.
+func (l *ledger) savedSigners(h common.Hash) map[common.Address]string {
+	am := account.NewManager(h, l.n.DB)
+	out := map[common.Address]string{}
+	watch := append([]common.Address{}, l.univ...)
+	for a := range l.truth {
+		watch = append(watch, a)
+	}
+	for _, a := range watch {
+		var ss []string
+		for _, s := range am.GetAccount(a).GetSigners() {
+			ss = append(ss, fmt.Sprintf("%d:%d", l.label(s.Address), s.Weight))
+		}
+		out[a] = strings.Join(ss, ",")
+	}
+	return out
+}
+
+// buildJudged is buildRec plus the immutability oracle of saved state: whatever a miner executes on top of a saved block
+// — whether its block is stored afterwards or thrown away — the signer lists of that saved block, read through a fresh
+// manager, must be what they were (the strict copy check of C07, for the one field the authorisation rests on).
+func (l *ledger) buildJudged(parent *types.Block, t uint32, txs types.Transactions, k *ecdsa.PrivateKey, gasLimit uint64) (*types.Block, types.Transactions, *recLoader, error) {
+	before := l.savedSigners(parent.Hash())
+	b, invalid, rec, err := l.buildRec(parent, t, txs, k, gasLimit)
+	after := l.savedSigners(parent.Hash())
+	for a, was := range before {
+		if after[a] != was {
+			l.c.Fail("c06/signers-of-saved-block-changed", fmt.Sprintf("building a block on top of saved block %d (not stored yet) changed the signer list of account %d IN THE SAVED BLOCK's state: [%s] -> [%s] (read through a fresh manager before / after the build)", parent.Height(), l.label(a), was, after[a]), nil)
+		}
+	}
+	l.c.Count("c06:saved-signers-compared-around-build")
+	return b, invalid, rec, err
+}
+
+// signedTransfer: a transfer of 1 LEMO from multisig account `from`, signed by the given keys in order.
+func (l *ledger) signedTransfer(from, to common.Address, keys []string, exp uint64, msg string) *types.Transaction {
+	tx := types.NewTransaction(from, to, lemo(1), 100000, oneGwei, nil, params.OrdinaryTx, nodeChainID, exp, "", msg)
+	stx := tx
+	for _, nm := range keys {
+		stx, _ = types.MakeSigner().SignTx(stx, l.key(nm))
+	}
+	return stx
+}
+
+// userNamesOf: the names of the keys behind a signer list (signers that are not scenario keys are skipped).
+func (l *ledger) userNamesOf(ss types.Signers) []string {
+	var out []string
+	for _, s := range ss {
+		if nm, ok := l.actorOf[s.Address]; ok {
+			out = append(out, nm)
+		}
+	}
+	return out
+}
+
+// afterAbandoned: if block b changes the signer list of an account that HAS registered signers, return the candidates of
+// the block that is mined instead of it (b is thrown away); nil otherwise.
+func (l *ledger) afterAbandoned(b *types.Block, exp uint64, mk func(tx *types.Transaction, class string, fromKeys ...string) *ledgerTx) []*ledgerTx {
+	var out []*ledgerTx
+	done := map[common.Address]bool{}
+	signersIn(b, func(target common.Address, ss types.Signers, tx *types.Transaction) {
+		old := l.truth[target]
+		if len(old) == 0 || done[target] {
+			return
+		}
+		done[target] = true
+		oldKeys, newKeys := l.userNamesOf(old), l.userNamesOf(ss)
+		if len(oldKeys) != len(old) || len(newKeys) == 0 {
+			return
+		}
+		to := keyAddr(l.key("u0"))
+		out = append(out,
+			mk(l.signedTransfer(target, to, oldKeys, exp, fmt.Sprintf("ab-old-%d", b.Height())), "spend-by-registered-signers", oldKeys...),
+			mk(l.signedTransfer(target, to, newKeys, exp, fmt.Sprintf("ab-new-%d", b.Height())), "spend-by-abandoned-signers", newKeys...))
+	})
+	return out
+}
+
+// siblingBranch: see the call site. Works on node A only; the sibling is dropped when b gets its confirmations.
+func (l *ledger) siblingBranch(parent, b *types.Block, t uint32, exp uint64) {
+	c := l.c
+	var target common.Address
+	var l1 types.Signers
+	signersIn(b, func(tg common.Address, ss types.Signers, _ *types.Transaction) {
+		if old := l.truth[tg]; len(old) > 0 && len(l.userNamesOf(old)) == len(old) && target == (common.Address{}) {
+			target, l1 = tg, ss
+		}
+	})
+	if target == (common.Address{}) {
+		return
+	}
+	old := l.truth[target]
+	oldKeys := l.userNamesOf(old)
+	// another list of the same length, other signers
+	used := map[common.Address]bool{}
+	for _, s := range l1 {
+		used[s.Address] = true
+	}
+	var l2 types.Signers
+	for _, nm := range []string{"u7", "u6", "u5", "u4", "u3", "u2", "u1", "u0"} {
+		a := keyAddr(l.key(nm))
+		if used[a] || len(l2) >= len(l1) {
+			continue
+		}
+		w := uint8(10)
+		switch {
+		case len(l1) == 1:
+			w = 100
+		case len(l2) == 0:
+			w = 60
+		case len(l2) == 1:
+			w = 50
+		}
+		l2 = append(l2, types.SignAccount{Address: a, Weight: w})
+	}
+	if len(l2) != len(l1) {
+		return
+	}
+	data, _ := json.Marshal(struct {
+		Signers types.Signers `json:"signers"`
+	}{l2})
+	chg := types.NewTransaction(target, target, new(big.Int), 2000000, oneGwei, data, params.ModifySignersTx, nodeChainID, exp, "", fmt.Sprintf("sib-%d", b.Height()))
+	for _, nm := range oldKeys {
+		chg, _ = types.MakeSigner().SignTx(chg, l.key(nm))
+	}
+	slot := uint32(l.w.Timeout / 1000)
+	for j := uint32(1); j <= 4; j++ {
+		t2 := t + j*slot
+		addr, k, err := l.inTurn(parent, t2)
+		if err != nil || addr == b.MinerAddress() {
+			continue
+		}
+		if os.Getenv("HX_DEBUG") == "sib" {
+			log.Setup(log.LevelInfo, false, true)
+		}
+		sib, _, _, err := l.buildJudged(parent, t2, types.Transactions{chg}, k, 0)
+		if os.Getenv("HX_DEBUG") == "sib" {
+			log.Setup(log.LevelCrit, false, false)
+		}
+		if err != nil {
+			return
+		}
+		if len(sib.Txs) != 1 {
+			c.Fail("c06/authorised-refused/sibling-branch", fmt.Sprintf("a second block on the parent of block %d: the ModifySigners tx of account %d signed by ALL registered signers is refused (after block %d, which changes the same list differently, was built on that parent)", b.Height(), l.label(target), b.Height()), nil)
+			return
+		}
+		if e := l.n.Insert(CloneBlock(sib)); e != nil {
+			c.Count("sibling:insert-refused")
+			return
+		}
+		c.Count("sibling:two-blocks-change-the-same-signer-list-differently")
+		// a child on the sibling: only the sibling's list counts there
+		t3 := t2 + 1
+		_, k3, err := l.inTurn(sib, t3)
+		if err != nil {
+			return
+		}
+		to := keyAddr(l.key("u0"))
+		byL2 := l.signedTransfer(target, to, l.userNamesOf(l2), exp, fmt.Sprintf("sib-l2-%d", b.Height()))
+		byL1 := l.signedTransfer(target, to, l.userNamesOf(l1), exp, fmt.Sprintf("sib-l1-%d", b.Height()))
+		byOld := l.signedTransfer(target, to, oldKeys, exp, fmt.Sprintf("sib-old-%d", b.Height()))
+		child, _, _, err := l.buildJudged(sib, t3, types.Transactions{byL2, byL1, byOld}, k3, 0)
+		if err != nil {
+			return
+		}
+		in := map[common.Hash]bool{}
+		for _, tx := range child.Txs {
+			in[tx.Hash()] = true
+		}
+		weight := func(keys []string) int {
+			seen, tot := map[common.Address]bool{}, 0
+			for _, nm := range keys {
+				a := keyAddr(l.key(nm))
+				if seen[a] {
+					continue
+				}
+				seen[a] = true
+				for _, r := range l2 {
+					if r.Address == a {
+						tot += int(r.Weight)
+					}
+				}
+			}
+			return tot
+		}
+		for _, x := range []struct {
+			tx   *types.Transaction
+			keys []string
+			who  string
+		}{{byL2, l.userNamesOf(l2), "the sibling's own list"}, {byL1, l.userNamesOf(l1), "the list of the OTHER branch"}, {byOld, oldKeys, "the parent's (replaced) list"}} {
+			auth := weight(x.keys) >= 100
+			switch {
+			case auth && !in[x.tx.Hash()]:
+				c.Fail("c06/authorised-refused/sibling-branch", fmt.Sprintf("child of the sibling of block %d: a spend of account %d signed by %s (weight %d on that branch) is refused", b.Height(), l.label(target), x.who, weight(x.keys)), nil)
+			case !auth && in[x.tx.Hash()]:
+				c.Fail("c06/unauthorised-included/sibling-branch", fmt.Sprintf("child of the sibling of block %d: a spend of account %d signed by %s (weight %d < 100 on that branch) is executed", b.Height(), l.label(target), x.who, weight(x.keys)), nil)
+			default:
+				c.Count("sibling:child-judged")
+			}
+		}
+		return
+	}
+}
